@@ -60,8 +60,14 @@ def payload(rng, n):
     return bytes((seed + 7 * k) & 0xff for k in range(n))
 
 
-def reads_for(rng, chunks, heavy=True):
+OWN_LAST = {"wav": b"data", "rf64": b"data", "aiff": b"SSND", "caf": b"data"}
+LAST_OWN = b"data"
+
+
+def reads_for(rng, chunks, heavy=True, cont=None):
     """iterator usage patterns on the read handle"""
+    global LAST_OWN
+    LAST_OWN = OWN_LAST.get(cont, b"data")
     R = ["chunkall h1 null"]
     ids = [i for (i, _) in chunks]
     if ids:
@@ -71,6 +77,7 @@ def reads_for(rng, chunks, heavy=True):
             R += ["chunkiter h1 %s" % i.hex(), "chunkdata h1 %d" % rng.choice([1, 2, 3, 7]), "chunknext h1", "chunkdata h1", "chunknext h1", "chunknext h1"]
             R.append("chunkall h1 null %d" % rng.choice([1, 3, 6]))
     R.append("chunkall h1 7a7a7a51")          # an id nobody uses
+    R.append("chunkall h1 %s" % LAST_OWN.hex())   # by id, the LAST entry of the read table (the container's audio chunk; LAST_OWN is set per script)
     R += ["chunkiter h1 null", "chunkdata h1 2", "chunknext h1", "chunkdata h1 5"]
     return R
 
@@ -83,12 +90,12 @@ def gen_scripts(ctx):
     for n in range(0, 201):
         ids = legal_pool(rng, "wav", n)
         ch = [(ids[k], payload(rng, (k * 3 + n) % 6)) for k in range(n)]
-        S.append(("count-wav-%03d" % n, "count", "wav", C.mk_script("wav", ch, reads=reads_for(rng, ch, heavy=(n % 10 == 0))), {"chunks": ch}))
+        S.append(("count-wav-%03d" % n, "count", "wav", C.mk_script("wav", ch, reads=reads_for(rng, ch, heavy=(n % 10 == 0), cont="wav")), {"chunks": ch}))
     for cont in ("rf64", "aiff", "caf"):
         for n in (range(0, 201) if thorough else COUNT_SPREAD):
             ids = legal_pool(rng, cont, n)
             ch = [(ids[k], payload(rng, (k * 5 + n) % 7)) for k in range(n)]
-            S.append(("count-%s-%03d" % (cont, n), "count", cont, C.mk_script(cont, ch, reads=reads_for(rng, ch, heavy=(n % 3 == 0))), {"chunks": ch}))
+            S.append(("count-%s-%03d" % (cont, n), "count", cont, C.mk_script(cont, ch, reads=reads_for(rng, ch, heavy=(n % 3 == 0), cont=cont)), {"chunks": ch}))
     # b. payload sizes, single chunk and in company
     for cont in C.CONTAINERS:
         for sz in SIZES + ([rng.randrange(6, 51200) for _ in range(4 if not thorough else 40)]):
@@ -105,7 +112,7 @@ def gen_scripts(ctx):
     # c. ids: ids the parser skips by name are ordinary custom ids; reserved / short / unprintable ids are classes
     for cont in C.CONTAINERS:
         ch = [(i, payload(rng, 1 + k)) for k, i in enumerate(HARMLESS[cont])]
-        S.append(("ids-harmless-%s" % cont, "ids", cont, C.mk_script(cont, ch, reads=reads_for(rng, ch)), {"chunks": ch}))
+        S.append(("ids-harmless-%s" % cont, "ids", cont, C.mk_script(cont, ch, reads=reads_for(rng, ch, cont=cont)), {"chunks": ch}))
         for i in RESERVED[cont]:
             for plen in (4, 40):
                 ch = [(b"okay", b"\x01"), (i, payload(rng, plen))]
@@ -116,6 +123,12 @@ def gen_scripts(ctx):
         for i in (b"a", b"ab", b"abc", b"x y", b"ab ", b"AAA\xa4", b"\x01bcd", b"ab\x7fd", b"\xff\xfe\xfd\xfc", b"da", b"fmt"):
             ch = [(b"okay", b"\x01"), (i, payload(rng, 3)), (i, payload(rng, 5))]
             S.append(("ids-odd-%s-%s" % (cont, i.hex()), "ids-class", cont, C.mk_script(cont, ch, reads=["chunkall h1 null", "chunkall h1 %s" % i.hex(), "chunkall h1 %s" % stored_id(i).hex()]), {"chunks": ch}))
+    # by-id iteration whose LAST match is the LAST entry of the read table: a custom LIST chunk in the header and the library's
+    # own LIST/INFO behind the audio (a string set after the audio); RF64 likewise
+    for cont in ("wav", "rf64"):
+        ch = [(b"LIST", b"adtlnote\x04\x00\x00\x00abcd"), (b"okay", b"\x01")]
+        S.append(("iter-last-%s" % cont, "iter", cont, C.mk_script(cont, ch, late=[], reads=["chunkall h1 %s" % b"LIST".hex(), "chunkall h1 null"]).replace("close h0\n", "setstr h0 1 %s\nclose h0\n" % b"late title".hex(), 1).replace("r h1 s16 i 10", "r h1 s16 i 8"),
+                  {"chunks": ch, "own": {b"LIST": 1}}))
     # the WAV reader's ID3v1 test: a chunk 'TAG?' that starts exactly 128 bytes before the end of the file, in front of the audio
     for frames in (8, 1, 20):
         ch = [(b"TAGx", payload(rng, 112 - 2 * frames))]
@@ -204,6 +217,9 @@ def predicate(cont, script, pairs, meta):
         if op[2] == "null":
             mine = [e for e in ents if bytes.fromhex(e["id"]) in ids]
             expect = chunks
+            for oid, own in meta.get("own", {}).items():       # the container's own trailing chunks of a custom id
+                if len(mine) == len(expect) + own and [bytes.fromhex(e["id"]) for e in mine[-own:]] == [oid] * own:
+                    mine = mine[:-own]
             if cont == "caf" and b"free" in ids and mine and bytes.fromhex(mine[-1]["id"]) == b"free" and len(mine) == len(expect) + 1:
                 mine = mine[:-1]        # the container's own trailing 'free' chunk
         else:
@@ -211,9 +227,16 @@ def predicate(cont, script, pairs, meta):
             mine = ents
             expect = [(i, d) for (i, d) in chunks if i == q]
             if q not in ids:
+                if q == OWN_LAST[cont] and len(ents) != 1:
+                    return "iteration by id %s (the container's own audio chunk, last in the file) visited %d entries instead of 1" % (q.hex(), len(ents))
                 continue
             if cont == "caf" and q == b"free" and len(mine) == len(expect) + 1:
                 mine = mine[:-1]
+            own = meta.get("own", {}).get(q, 0)
+            if own:
+                if len(mine) != len(expect) + own:
+                    return "iteration (%s) visited %d chunks: %d were set and the container adds %d of its own" % (op[2], len(mine), len(expect), own)
+                mine = mine[:len(expect)]
         if len(mine) != len(expect):
             return "iteration (%s) visited %d custom chunks, %d were set" % (op[2], len(mine), len(expect))
         for e, (i, d) in zip(mine, expect):
@@ -409,7 +432,8 @@ def run(ctx):
             unknown = [cl for cl in classes if cl not in CLASS_TO_KF or not still.get(CLASS_TO_KF[cl], False)]
             if why and unknown:
                 found_input = True
-                v("class-" + name, replay_text("%s: %s; the script is in class %s whose known finding no longer reproduces with its signature" % (name, why, ",".join(unknown)), script))
+                v("class-" + name, replay_text("%s: %s; class(es) of the script: %s (%s)" % (name, why, ",".join(unknown),
+                                  "no known finding covers them" if not any(cl in CLASS_TO_KF for cl in unknown) else "the known finding no longer reproduces with its signature"), script))
             continue
         why = predicate(cont, script, pairs, meta)
         mcmp, icmp = ml[1:], il
